@@ -26,7 +26,11 @@ VShapes == { [verts |-> << <<0, 0, 0>>, <<40, 30, 0>>, <<40, 30, 25>>, <<0, 0, 2
              [verts |-> << <<100, 0, 30>>, <<160, 0, 30>>, <<130, 40, 30>> >>, a2 |-> 2400],                        \* horizontal triangle
              \* a canopy with twelve corners (a cross of arms 20 wide, 60 x 60 overall): the order of V10..V12 matters
              [verts |-> << <<220, 0, 35>>, <<240, 0, 35>>, <<240, 20, 35>>, <<260, 20, 35>>, <<260, 40, 35>>, <<240, 40, 35>>,
-                           <<240, 60, 35>>, <<220, 60, 35>>, <<220, 40, 35>>, <<200, 40, 35>>, <<200, 20, 35>>, <<220, 20, 35>> >>, a2 |-> 4000] }
+                           <<240, 60, 35>>, <<220, 60, 35>>, <<220, 40, 35>>, <<200, 40, 35>>, <<200, 20, 35>>, <<220, 20, 35>> >>, a2 |-> 4000],
+             \* a canopy 20 m x 4 m with a drainage slope of 1 in 200 (0.29 degrees) rising to the east: nearly, not exactly, horizontal
+             [verts |-> << <<300, 0, 30>>, <<500, 0, 31>>, <<500, 40, 31>>, <<300, 40, 30>> >>, a2 |-> 16000],
+             \* the same canopy rising to the west
+             [verts |-> << <<300, 100, 31>>, <<500, 100, 30>>, <<500, 140, 30>>, <<300, 140, 31>> >>, a2 |-> 16000] }
 Space(o, as, ol) == [x |-> o[1], y |-> o[2], z |-> o[3], h |-> 30, as |-> as, outline |-> ol]
 VARIABLE c
 Init ==
@@ -84,6 +88,8 @@ AreaLaw == Hyp(c.ag) * Hyp(c.sp.as) > 30 \/
                g == [i \in DOMAIN c.sp.outline |-> LET p == ToGlobal(c, c.sp, Pt(c.sp.outline[i][1], c.sp.outline[i][2], 0)) IN <<p.x, p.y>>] IN
            Area2(g) = k * k * Area2(c.sp.outline)
 \* the stated area of a vertex-defined shade is the area of its polygon in space (Newell vector)
-VShadeAreas == \A i \in DOMAIN c.vs : LET n == NewellVector(c.vs[i].verts) IN n[1] * n[1] + n[2] * n[2] + n[3] * n[3] = c.vs[i].a2 * c.vs[i].a2
+VShadeAreas == \A i \in DOMAIN c.vs : LET n == NewellVector(c.vs[i].verts) IN LET nn == n[1] * n[1] + n[2] * n[2] + n[3] * n[3] IN
+               \* a2 is twice the area, rounded down where the area is not rational (the nearly horizontal canopies)
+               c.vs[i].a2 * c.vs[i].a2 <= nn /\ nn < (c.vs[i].a2 + 1) * (c.vs[i].a2 + 1)
 InvEmit == PrintT(<<"CASE", ToJson(c)>>)
 =============================================================================
